@@ -14,7 +14,9 @@ import (
 
 func getMessage(fields map[string]any) (string, error) {
 	if len(fields) == 1 {
-		return fields["message"].(string), nil
+		if message, ok := fields["message"].(string); ok {
+			return message, nil
+		}
 	}
 	buf := bytes.NewBuffer(make([]byte, 0, 1000))
 	encoder := logfmt.NewEncoder(buf)
